@@ -5,6 +5,7 @@ import (
 	"fmt"
 	"io"
 	"math/big"
+	"os"
 	"os/exec"
 	"strings"
 	"sync/atomic"
@@ -23,8 +24,8 @@ func (r Result) String() string { return [...]string{"unsat", "sat", "unknown"}[
 
 // Stats are global solver statistics (atomic).
 type Stats struct {
-	Queries, SatN, UnsatN, UnknownN, Errors, OneShots, OneShotDecided int64
-	NanosInSolver                                                     int64
+	Queries, SatN, UnsatN, UnknownN, Errors, OneShots, OneShotDecided, IncompleteModels int64
+	NanosInSolver                                                                       int64
 }
 
 var GStats Stats
@@ -41,6 +42,8 @@ type Solver struct {
 	nq        int
 	level     int
 	sent      int
+	seq       int
+	LastRaw   string // raw text of the last get-value answer (diagnostics)
 	curTmo    int
 	NextTmo   int // timeout for the next Check (0 = default)
 	LogW      io.Writer
@@ -71,6 +74,10 @@ func (s *Solver) start() {
 	}
 	s.in = in
 	s.out = bufio.NewReaderSize(out, 1<<20)
+	if dir := os.Getenv("VERIF_SOLVERLOG"); dir != "" && s.LogW == nil {
+		f, _ := os.Create(fmt.Sprintf("%s/solver%d.log", dir, atomic.AddInt64(&solverLogSeq, 1)))
+		s.LogW = f
+	}
 	s.declared = map[string]Sort{}
 	s.nq = 0
 	s.level = 0
@@ -112,6 +119,8 @@ func (s *Solver) send(str string) {
 	io.WriteString(s.in, str)
 }
 
+var solverLogSeq int64
+
 // readSexp reads one complete s-expression or atom line from the solver.
 func (s *Solver) readSexp() (string, error) {
 	var sb strings.Builder
@@ -134,6 +143,9 @@ func (s *Solver) readSexp() (string, error) {
 		}
 		sb.WriteString(line)
 		if started && depth <= 0 {
+			if s.LogW != nil {
+				io.WriteString(s.LogW, ";; <= "+strings.TrimSpace(sb.String())+"\n")
+			}
 			return strings.TrimSpace(sb.String()), nil
 		}
 	}
@@ -171,6 +183,36 @@ func (s *Solver) BeginPath() {
 	s.declared = map[string]Sort{}
 }
 
+// roundtrip sends a batch of commands followed by an echo sentinel and returns every
+// s-expression the solver printed before the sentinel. (z3 can print an unexpected
+// "(error ... canceled)" for a push/pop when a timeout timer fires late; without the sentinel
+// the answers would be attributed to the wrong commands from then on.)
+func (s *Solver) roundtrip(cmds string) ([]string, error) {
+	s.seq++
+	tag := fmt.Sprintf("vdone%d", s.seq)
+	s.send(cmds + "(echo \"" + tag + "\")\n")
+	var out []string
+	for {
+		x, err := s.readSexp()
+		if err != nil {
+			return out, err
+		}
+		if strings.Trim(x, "\"") == tag {
+			return out, nil
+		}
+		out = append(out, x)
+	}
+}
+
+func hasError(lines []string) bool {
+	for _, l := range lines {
+		if strings.HasPrefix(l, "(error") {
+			return true
+		}
+	}
+	return false
+}
+
 // Check decides pc ∧ extra. pc must extend the pc of earlier calls within the same path.
 // If want is given, values for those terms are returned on sat.
 func (s *Solver) Check(pc []*Term, extra *Term, wantModel []*Term) (Result, map[string]*big.Int) {
@@ -178,6 +220,32 @@ func (s *Solver) Check(pc []*Term, extra *Term, wantModel []*Term) (Result, map[
 	defer func() { atomic.AddInt64(&GStats.NanosInSolver, int64(time.Since(t0))) }()
 	atomic.AddInt64(&GStats.Queries, 1)
 	s.nq++
+	res, model := s.checkOnce(pc, extra, wantModel)
+	if res == resProtocolError {
+		// the solver printed an error (or died): its assertion stack can no longer be trusted.
+		// Start a fresh process, re-assert the whole path condition and ask once more.
+		atomic.AddInt64(&GStats.Errors, 1)
+		s.restart()
+		res, model = s.checkOnce(pc, extra, wantModel)
+		if res == resProtocolError {
+			s.restart()
+			res, model = Unknown, nil
+		}
+	}
+	switch res {
+	case Sat:
+		atomic.AddInt64(&GStats.SatN, 1)
+	case Unsat:
+		atomic.AddInt64(&GStats.UnsatN, 1)
+	default:
+		atomic.AddInt64(&GStats.UnknownN, 1)
+	}
+	return res, model
+}
+
+const resProtocolError Result = 99
+
+func (s *Solver) checkOnce(pc []*Term, extra *Term, wantModel []*Term) (Result, map[string]*big.Int) {
 	if s.level == 0 {
 		s.BeginPath()
 	}
@@ -213,54 +281,50 @@ func (s *Solver) Check(pc []*Term, extra *Term, wantModel []*Term) (Result, map[
 		sb.WriteString(")\n")
 	}
 	sb.WriteString("(check-sat)\n")
-	s.send(sb.String())
-	line, err := s.readSexp()
+	if len(wantModel) == 0 {
+		sb.WriteString("(pop 1)\n")
+	}
+	lines, err := s.roundtrip(sb.String())
+	if err != nil || hasError(lines) {
+		return resProtocolError, nil
+	}
 	res := Unknown
-	switch {
-	case err != nil:
-		atomic.AddInt64(&GStats.Errors, 1)
-		s.restart()
-		s.level = 0
-		atomic.AddInt64(&GStats.UnknownN, 1)
-		return Unknown, nil
-	case line == "sat":
-		res = Sat
-	case line == "unsat":
-		res = Unsat
-	case strings.HasPrefix(line, "(error"):
-		atomic.AddInt64(&GStats.Errors, 1)
-		fmt.Printf("SOLVER-ERROR %s\n", line)
-		res = Unknown
-	default:
-		res = Unknown
+	for _, l := range lines {
+		switch l {
+		case "sat":
+			res = Sat
+		case "unsat":
+			res = Unsat
+		}
+	}
+	if len(wantModel) == 0 {
+		return res, nil
 	}
 	var model map[string]*big.Int
-	if res == Sat && len(wantModel) > 0 {
-		var gv strings.Builder
+	var gv strings.Builder
+	if res == Sat {
 		gv.WriteString("(get-value (")
 		for _, t := range wantModel {
 			gv.WriteString(t.SMT())
 			gv.WriteByte(' ')
 		}
 		gv.WriteString("))\n")
-		s.send(gv.String())
-		out, err := s.readSexp()
-		if err != nil || strings.HasPrefix(out, "(error") {
-			atomic.AddInt64(&GStats.Errors, 1)
-			fmt.Printf("SOLVER-ERROR get-value: %s\n", out)
-			res = Unknown
-		} else {
-			model = parseModel(out, wantModel)
-		}
 	}
-	s.send("(pop 1)\n")
-	switch res {
-	case Sat:
-		atomic.AddInt64(&GStats.SatN, 1)
-	case Unsat:
-		atomic.AddInt64(&GStats.UnsatN, 1)
-	default:
-		atomic.AddInt64(&GStats.UnknownN, 1)
+	gv.WriteString("(pop 1)\n")
+	lines, err = s.roundtrip(gv.String())
+	if err != nil || hasError(lines) {
+		return resProtocolError, nil
+	}
+	if res == Sat {
+		for _, l := range lines {
+			if strings.HasPrefix(l, "((") {
+				s.LastRaw = l
+				model = parseModel(l, wantModel)
+			}
+		}
+		if model == nil {
+			return Unknown, nil
+		}
 	}
 	return res, model
 }
